@@ -1509,7 +1509,7 @@ def scalar_getitem(interp, c, k):
 
 def native_method(interp, v, name):
     allowed = {
-        str: {"format", "startswith", "endswith", "split", "join", "lower", "upper", "strip", "replace", "lstrip", "rstrip", "isdigit", "find"},
+        str: {"format", "startswith", "endswith", "split", "join", "lower", "upper", "strip", "replace", "lstrip", "rstrip", "isdigit", "find", "isidentifier", "isalpha", "isalnum", "rsplit", "count", "title", "capitalize"},
         tuple: {"index", "count"},
         list: {"append", "extend", "index", "count", "insert", "pop", "copy", "sort", "reverse", "remove"},
         dict: {"get", "items", "keys", "values", "copy", "update", "setdefault", "pop"},
@@ -1862,6 +1862,30 @@ def _getattr(it, a, k):
             if not isinstance(a[0], Obj):
                 return a[2]
         raise
+
+
+@_b("setattr")
+def _setattr(it, a, k):
+    if isinstance(a[0], Obj) and isinstance(a[1], str):
+        a[0].attrs[a[1]] = a[2]
+        return None
+    raise AnalysisError(f"setattr on {type(a[0]).__name__}")
+
+
+@_b("dir")
+def _dir(it, a, k):
+    v = a[0] if a else None
+    if isinstance(v, (list, dict, tuple, str, set)):
+        return dir(type(v))
+    if isinstance(v, Obj):
+        names = set(v.attrs)
+        if v.cls is not None:
+            for c in v.cls.mro():
+                names |= set(c.methods) | set(c.fields)
+        return sorted(names)
+    if getattr(v, "is_array", False):
+        return ["__getitem__", "at", "shape", "dtype"]
+    return []
 
 
 @_b("hasattr")
